@@ -1183,6 +1183,11 @@ func (w *world) execOp1(i int, op Op, m *model, tr *trace) {
 		synctest.Wait()
 		m.step(i, "advance", nil, w.snapshot(i))
 	case "fault":
+		if tr.Scenario.Cfg.Store != "fault" {
+			// only the fault store (whose call log the model follows) takes injected faults
+			tr.Skipped++
+			return
+		}
 		m.noteFault(op)
 		for _, s := range w.stores {
 			if s != nil {
